@@ -159,6 +159,99 @@ fn tx_build(args: &[String]) -> Option<String> {
     Some(format!("OK:{};{}", show_bytes(&b), size))
 }
 
+/// tx.build_ext ver lt nin nout (id vout script seq|- lock|- sat|- mode)* (value script)*
+/// mode b: set_locking_script / set_satoshis before add_input; mode a: add_input, then get_input / set_* / set_input.
+fn tx_build_ext(args: &[String]) -> Option<String> {
+    let ver = u32::try_from(arg_u64(args, 0)?).ok()?;
+    let lt = u32::try_from(arg_u64(args, 1)?).ok()?;
+    let nin = arg_u64(args, 2)? as usize;
+    let nout = arg_u64(args, 3)? as usize;
+    if nin > 1000 || nout > 1000 || args.len() != 4 + 7 * nin + 2 * nout {
+        return None;
+    }
+    let mut tx = Transaction::new(ver, lt);
+    let mut p = 4;
+    for _ in 0..nin {
+        let id = arg_bytes(args, p)?;
+        let vout = u32::try_from(arg_u64(args, p + 1)?).ok()?;
+        let sb = arg_bytes(args, p + 2)?;
+        let seq = if args[p + 3] == "-" { None } else { Some(u32::try_from(arg_u64(args, p + 3)?).ok()?) };
+        let lock = if args[p + 4] == "-" { None } else { Some(arg_bytes(args, p + 4)?) };
+        let sat = if args[p + 5] == "-" { None } else { Some(arg_u64(args, p + 5)?) };
+        let after = match args[p + 6].as_str() {
+            "a" => true,
+            "b" => false,
+            _ => return None,
+        };
+        p += 7;
+        let script = if null_outpoint(&id, vout) { Script::from_coinbase_bytes(&sb) } else { Script::from_bytes(&sb) };
+        let script = match script {
+            Ok(s) => s,
+            Err(_) => return Some("ERR".into()),
+        };
+        let lock = match lock {
+            Some(lb) => match Script::from_bytes(&lb) {
+                Ok(s) => Some(s),
+                Err(_) => return Some("ERR".into()),
+            },
+            None => None,
+        };
+        let mut txin = TxIn::new(&id, vout, &script, seq);
+        if after {
+            tx.add_input(&txin);
+            let k = tx.get_ninputs() - 1;
+            let mut got = tx.get_input(k)?;
+            if let Some(l) = &lock {
+                got.set_locking_script(l);
+            }
+            if let Some(v) = sat {
+                got.set_satoshis(v);
+            }
+            tx.set_input(k, &got);
+        } else {
+            if let Some(l) = &lock {
+                txin.set_locking_script(l);
+            }
+            if let Some(v) = sat {
+                txin.set_satoshis(v);
+            }
+            tx.add_input(&txin);
+        }
+    }
+    for _ in 0..nout {
+        let v = arg_u64(args, p)?;
+        let sb = arg_bytes(args, p + 1)?;
+        p += 2;
+        let script = match Script::from_bytes(&sb) {
+            Ok(s) => s,
+            Err(_) => return Some("ERR".into()),
+        };
+        tx.add_output(&TxOut::new(v, &script));
+    }
+    let b = match tx.to_bytes() {
+        Ok(b) => b,
+        Err(_) => return Some("ERR-SER".into()),
+    };
+    let id = match tx.get_id_hex() {
+        Ok(h) => h,
+        Err(_) => return Some("ERR-ID".into()),
+    };
+    let size = match tx.get_size() {
+        Ok(n) => n,
+        Err(_) => return Some("ERR-SIZE".into()),
+    };
+    let mut ins = String::new();
+    for k in 0..tx.get_ninputs() {
+        let i = tx.get_input(k)?;
+        let ib = match i.to_bytes() {
+            Ok(b) => b,
+            Err(_) => return Some("ERR-SER".into()),
+        };
+        ins.push_str(&format!("{},{}/", show_bytes(&ib), i.get_unlocking_script_size()));
+    }
+    Some(format!("OK:{};{};{};{}", show_bytes(&b), id, size, show_long(ins)))
+}
+
 fn rd(r: std::io::Result<u64>) -> Option<u64> {
     r.ok()
 }
@@ -171,6 +264,10 @@ pub fn run(op: &str, args: &[String]) -> Option<String> {
             None => return bad(),
         },
         "tx.build" => match tx_build(args) {
+            Some(r) => r,
+            None => return bad(),
+        },
+        "tx.build_ext" => match tx_build_ext(args) {
             Some(r) => r,
             None => return bad(),
         },
